@@ -178,6 +178,9 @@ def run(tier):
                         bad = ("canary-damaged:%s" % ("before-buffer" if first < 0 else "after-buffer"), "first damaged rel=%d count=%d: %s" % (first, can, rec))
                     elif why and rc == 0:
                         bad = ("success-although-must-fail:" + why.split(" ")[0], "%s; %s" % (why, rec))
+                    elif not why and rc != 0:
+                        # every instruction of the call starts with at least the 20 reserve bytes of room and every line is valid
+                        bad = ("failure-although-room>=20", rec)
                     if bad:
                         break
                     if rc:
@@ -215,10 +218,11 @@ def run(tier):
         cases.append(cmds)
         meta.append((t, n, k, mask))
     out = common.run_cases(plain, cases, tag="c07r")
+    roomy = common.run_lines(plain, [(mask, t, 0) for (t, n, k, mask) in meta], tag="c07b")  # the same lines with ample room
     stats["reserve_lines"] = len(cases)
     stats["reserve_lines_accepted"] = 0
     stats["reserve_longest"] = 0
-    for (t, n, k, mask), cmds, r in zip(meta, cases, out):
+    for (t, n, k, mask), cmds, r, big in zip(meta, cases, out, roomy):
         v.count()
         case = {"key": "reserve %r n=%d off=%d [%s]" % (t, n, k, mask), "fam": "reserve", "text": t, "n": n, "place": "R", "script": cmds}
         recs = r["records"]
@@ -236,6 +240,8 @@ def run(tier):
                 bad = ("canary-damaged:after-buffer", recs[5] + " / " + recs[-1])
             elif int(a[1]) == 0 and int(a[3]) > n:
                 bad = ("offset-beyond-buffer", recs[5])
+            elif int(a[1]) != 0 and "crash" not in big and big["rc"] == 0:
+                bad = ("failure-although-room==20", "accepted with ample room (%s) but: %s" % (big["bytes"], recs[5]))
             elif int(a[1]) == 0:
                 stats["reserve_lines_accepted"] += 1
                 stats["reserve_longest"] = max(stats["reserve_longest"], int(a[3]) - k)
